@@ -5,6 +5,7 @@
 import Krp.Props.C03
 import Krp.Props.C07
 import Krp.Lemmas.Wiring
+import Krp.Lemmas.Bank
 namespace Krp
 open HubSt
 
@@ -878,5 +879,516 @@ theorem C02_direct_call_recognises (s s' : Sys) (sender : Addr) (funds : List (D
 /-! Non-vacuity: the genesis state of the corpus satisfies the premises. -/
 example : ChainOK genesisSys ∧ genesisSys.hub.bBond + genesisSys.hub.sBond ≤ totalDelegated genesisSys :=
   ⟨⟨fun _ _ => rfl, fun _ _ => rfl⟩, by decide⟩
+
+/-! ### The coins reserved for unbonders are never consumed
+
+  `prev_hub_balance` is the part of the hub's liquid balance that belongs to released unbonding
+  claims.  Carried through the queue:
+
+      prev_hub_balance + staking-denom coins about to leave the hub (its pending Delegate messages
+        and claim payouts)  ≤  the hub's bank balance in the staking denom. -/
+
+/-- staking-denom coins message `m` takes out of the hub's account -/
+def hubOut : Msg → Nat
+  | .bankSend src _ d amt => if src = hubA ∧ d = 0 then amt else 0
+  | .delegate who _ amt => if who = hubA then amt else 0
+  | .wasm s _ _ f => if s = hubA then fundsOf 0 f else 0
+  | _ => 0
+
+def hubOutAll (q : List Msg) : Nat := (q.map hubOut).sum
+
+/-- messages that move coins out of the hub's account -/
+def isOut : Msg → Bool
+  | .bankSend src _ _ _ => src == hubA
+  | .delegate who _ _ => who == hubA
+  | .wasm s _ _ f => s == hubA && !f.isEmpty
+  | _ => false
+
+/-- the two kinds of outflow the hub emits: claim payouts and delegations -/
+def isLeaf : Msg → Bool
+  | .bankSend src _ _ _ => src == hubA
+  | .delegate who _ _ => who == hubA
+  | _ => false
+
+theorem hubOutAll_append (x y : List Msg) : hubOutAll (x ++ y) = hubOutAll x + hubOutAll y := by simp [hubOutAll]
+
+theorem hubOut_noOut (m : Msg) (h : isOut m = false) : hubOut m = 0 := by
+  cases m with
+  | wasm s t c f =>
+    simp only [isOut, Bool.and_eq_false_iff, beq_eq_false_iff_ne, Bool.not_eq_false'] at h
+    rcases h with h | h
+    · simp [hubOut, h]
+    · have : f = [] := by simpa using h
+      simp [hubOut, this, fundsOf]
+  | _ => simp_all [hubOut, isOut]
+
+theorem hubOutAll_noOut (q : List Msg) (h : ∀ x ∈ q, isOut x = false) : hubOutAll q = 0 := by
+  induction q with
+  | nil => rfl
+  | cons m ms ih =>
+    have h1 := hubOut_noOut m (h m (List.mem_cons_self ..))
+    have h2 := ih (fun x hx => h x (List.mem_cons_of_mem _ hx))
+    simp only [hubOutAll, List.map_cons, List.sum_cons] at h2 ⊢
+    omega
+
+theorem sentBy_noOut (a : Addr) (ha : a ≠ hubA) (ms : List Msg) (h : SentBy a ms) : ∀ m ∈ ms, isOut m = false := by
+  intro m hm
+  have := h m hm
+  cases m <;> simp_all [isOut, Msg.sentFrom]
+
+theorem paymentOf_funds (funds : List (Denom × Nat)) (p : Nat) (hx : paymentOf funds = .ok p) :
+    fundsOf 0 funds = p := by
+  unfold paymentOf at hx
+  split at hx
+  · cases hx
+  · rename_i hl
+    split at hx
+    · cases hx
+    · rename_i c hf
+      injection hx with hx
+      have hc := List.find?_some hf
+      cases funds with
+      | nil => simp at hf
+      | cons a rest =>
+        cases rest with
+        | nil =>
+          simp only [List.find?_cons] at hf
+          split at hf
+          · injection hf with hf; subst hf
+            simp only [decide_eq_true_eq] at hc
+            simp [fundsOf, hc.1, hx]
+          · cases hf
+        | cons b rest' => simp at hl
+
+/-- the hub's own Delegate messages take out exactly their total, and are all outflows -/
+theorem delegs_out (h : HubSt) (e : HubEnv) (p : Nat) (ms : List Msg) (he : e.self = hubA)
+    (hx : h.delegMsgs e p = .ok ms) : (∀ m ∈ ms, isLeaf m = true) ∧ hubOutAll ms = p := by
+  have ds := delegs_stake h e p ms he hx
+  obtain ⟨_, reg, vs, _, _, hall⟩ := C02_bond_delegated_in_full h e p ms hx
+  have key : ∀ (l : List Msg), (∀ m ∈ l, ∃ v a, m = Msg.delegate e.self v a ∧ v ∈ vs.map (·.1) ∧ 0 < a) →
+      (∀ m ∈ l, isLeaf m = true) ∧ hubOutAll l = delSum l := by
+    intro l
+    induction l with
+    | nil => intro _; exact ⟨(fun _ h => by cases h), rfl⟩
+    | cons m ms ih =>
+      intro hl
+      obtain ⟨v, a, hm, _, _⟩ := hl m (List.mem_cons_self ..)
+      have r := ih (fun x hx => hl x (List.mem_cons_of_mem _ hx))
+      subst hm
+      refine ⟨fun x hx => ?_, ?_⟩
+      · rcases List.mem_cons.mp hx with rfl | hx
+        · simp [isLeaf, he]
+        · exact r.1 x hx
+      · have := r.2
+        simp only [hubOutAll, List.map_cons, List.sum_cons, hubOut, delSum, he, if_true] at this ⊢
+        omega
+  have k := key ms hall
+  exact ⟨k.1, by rw [k.2, ds.2.1]⟩
+
+theorem undelegs_noOut (e : HubEnv) (claim : Nat) (ms : List Msg)
+    (hx : pickValidator e claim = .ok ms) : ∀ m ∈ ms, isOut m = false := by
+  unfold pickValidator at hx
+  simp only [] at hx
+  split at hx
+  · cases hx
+  · injection hx with hx; subst hx
+    have key : ∀ (vs : List (Addr × Nat)) (ps : List Nat),
+        ∀ m ∈ zipMsgs (fun v p => Msg.undelegate e.self v p) vs ps, isOut m = false := by
+      intro vs
+      induction vs with
+      | nil => intro ps m hm; simp [zipMsgs] at hm
+      | cons v vs ih =>
+        intro ps
+        cases ps with
+        | nil => intro m hm; simp [zipMsgs] at hm
+        | cons p ps =>
+          obtain ⟨v1, v2⟩ := v
+          intro m hm
+          simp only [zipMsgs] at hm
+          rcases List.mem_append.mp hm with h | h
+          · split at h
+            · cases h
+            · simp at h; subst h; rfl
+          · exact ih ps m h
+    exact key _ _
+
+/-- **One hub message, on the reserved coins.** `B` = the hub's staking-denom bank balance as the
+    handler sees it (attached funds already arrived), `B0` the balance before they arrived. -/
+theorem hub_fund_step (h h' : HubSt) (e : HubEnv) (sender : Addr) (funds : List (Denom × Nat))
+    (m : HubMsg) (ms : List Msg) (B0 : Nat) (he : e.self = hubA)
+    (hB : e.hubBalance ≥ B0 + fundsOf 0 funds) (hinv : h.prevHubBalance ≤ B0)
+    (hx : hubExec h e sender funds m = .ok (h', ms)) :
+    ∃ pre rest, ms = pre ++ rest ∧ (∀ x ∈ pre, isLeaf x = true) ∧ (∀ x ∈ rest, isOut x = false) ∧
+      h'.prevHubBalance + hubOutAll pre ≤ e.hubBalance := by
+  have sb := hubExec_sentBy h h' e sender funds m ms hx
+  have plain : ∀ (rest : List Msg), h'.prevHubBalance = h.prevHubBalance → (∀ y ∈ rest, isOut y = false) → ms = rest →
+      ∃ pre rest', ms = pre ++ rest' ∧ (∀ y ∈ pre, isLeaf y = true) ∧ (∀ y ∈ rest', isOut y = false) ∧
+        h'.prevHubBalance + hubOutAll pre ≤ e.hubBalance :=
+    fun rest hp hr hm => ⟨[], rest, by simp [hm], (fun _ h => by cases h), hr,
+      (by rw [hp]; simp only [hubOutAll, List.map_nil, List.sum_nil, Nat.add_zero]; omega)⟩
+  have tokNo : ∀ (tok : Addr) (tm : TokMsg), isOut (tokMsg e.self tok tm) = false := by
+    intro tok tm; simp [tokMsg, isOut]
+  cases m with
+  | migrateWaitList limit =>
+    simp only [hubExec] at hx
+    split at hx
+    · injection hx with hx; injection hx with h1 h2; subst h1; subst h2
+      refine plain [] ?_ (fun _ h => by cases h) rfl
+      unfold migrate
+      simp only []
+      split
+      · rfl
+      · have : ∀ (l : List (Addr × Nat × Nat)) (x : HubSt), (l.foldl migrateOne x).prevHubBalance = x.prevHubBalance := by
+          intro l
+          induction l with
+          | nil => intro x; rfl
+          | cons a l ih => intro x; simp only [List.foldl_cons]; rw [ih]; rfl
+        exact this _ h
+    · cases hx
+  | updateParams a b c d p r =>
+    simp only [hubExec] at hx
+    exc_norm at hx
+    split at hx
+    · cases hx
+    · rename_i h1 hp
+      injection hx with hx; injection hx with e1 e2; subst e1; subst e2
+      unfold updateParams at hp
+      exc_norm at hp
+      exc_split at hp
+      all_goals exact plain [] rfl (fun _ h => by cases h) rfl
+  | receive user amt hook =>
+    simp only [hubExec] at hx
+    split at hx
+    · cases hx
+    · exc_norm at hx
+      split at hx
+      · cases hx
+      · split at hx
+        · cases hx
+        · cases hook with
+          | other => simp only [] at hx; cases hx
+          | convert =>
+            simp only [] at hx
+            split at hx
+            · obtain ⟨st, _, _, _, _, _, hst, _, _, _, _, _, _, _, _, hh, hms⟩ := convertBS_spec _ _ _ _ _ _ hx
+              have sbk := (actualState_spec h st e hst).1
+              refine plain ms (by rw [hh]; exact sbk.prev) ?_ rfl
+              subst hms; intro y hy; simp at hy; rcases hy with rfl | rfl <;> exact tokNo _ _
+            · split at hx
+              · obtain ⟨st, _, _, _, _, _, hst, _, _, _, _, _, _, _, _, hh, hms⟩ := convertSB_spec _ _ _ _ _ _ hx
+                have sbk := (actualState_spec h st e hst).1
+                refine plain ms (by rw [hh]; exact sbk.prev) ?_ rfl
+                subst hms; intro y hy; simp at hy; rcases hy with rfl | rfl <;> exact tokNo _ _
+              · cases hx
+          | unbond =>
+            -- Undelegate messages move no coins; the burn carries no funds
+            simp only [] at hx
+            split at hx
+            · obtain ⟨st, supply, wf, tok, hst, _, _, _, _, _, hcase⟩ := unbondB_spec _ _ _ _ _ _ hx
+              have sbk := (actualState_spec h st e hst).1
+              rcases hcase with ⟨_, um, hp, hms⟩ | ⟨_, hh, hms⟩
+              · have sp := processUndelegations_spec _ _ _ _ hp
+                refine plain ms (by rw [sp.2.2.2.2.2.2.2.2.2.2.2.2.2.2.2.1]; exact sbk.prev) ?_ rfl
+                subst hms
+                intro y hy
+                rcases List.mem_append.mp hy with h1 | h1
+                · exact undelegs_noOut e _ um sp.1 y h1
+                · simp at h1; subst h1; exact tokNo _ _
+              · subst hh
+                refine plain ms sbk.prev ?_ rfl
+                subst hms; intro y hy; simp at hy; subst hy; exact tokNo _ _
+            · split at hx
+              · obtain ⟨st, tok, hst, _, _, hcase⟩ := unbondS_spec _ _ _ _ _ _ hx
+                have sbk := (actualState_spec h st e hst).1
+                rcases hcase with ⟨_, um, hp, hms⟩ | ⟨_, hh, hms⟩
+                · have sp := processUndelegations_spec _ _ _ _ hp
+                  refine plain ms (by rw [sp.2.2.2.2.2.2.2.2.2.2.2.2.2.2.2.1]; exact sbk.prev) ?_ rfl
+                  subst hms
+                  intro y hy
+                  rcases List.mem_append.mp hy with h1 | h1
+                  · exact undelegs_noOut e _ um sp.1 y h1
+                  · simp at h1; subst h1; exact tokNo _ _
+                · subst hh
+                  refine plain ms sbk.prev ?_ rfl
+                  subst hms; intro y hy; simp at hy; subst hy; exact tokNo _ _
+              · cases hx
+  | bond =>
+    simp only [hubExec] at hx; split at hx
+    · cases hx
+    · obtain ⟨p, st, mint, dl, tok, hpay, hst, _, _, hd, _, hh, hms⟩ := bondB_spec _ _ _ _ _ _ hx
+      have d := delegs_out h e p dl he hd
+      have sbk := (actualState_spec h st e hst).1
+      have hp := paymentOf_funds funds p hpay
+      refine ⟨dl, [tokMsg e.self tok (.mint sender mint)], hms, d.1, by intro y hy; simp at hy; subst hy; exact tokNo _ _, ?_⟩
+      rw [hh, d.2]; simp only []; rw [sbk.prev]; omega
+  | bondForStSei =>
+    simp only [hubExec] at hx; split at hx
+    · cases hx
+    · obtain ⟨p, st, dl, tok, hpay, hst, _, hd, _, hh, hms⟩ := bondS_spec _ _ _ _ _ _ hx
+      have d := delegs_out h e p dl he hd
+      have sbk := (actualState_spec h st e hst).1
+      have hp := paymentOf_funds funds p hpay
+      refine ⟨dl, [tokMsg e.self tok (.mint sender (decDiv p st.sRate))], hms, d.1, by intro y hy; simp at hy; subst hy; exact tokNo _ _, ?_⟩
+      rw [hh, d.2]; simp only []; rw [sbk.prev]; omega
+  | bondRewards =>
+    simp only [hubExec] at hx; split at hx
+    · cases hx
+    · obtain ⟨p, st, _, hpay, hst, hd, hh⟩ := bondR_spec _ _ _ _ _ _ hx
+      have d := delegs_out h e p ms he hd
+      have sbk := (actualState_spec h st e hst).1
+      have hp := paymentOf_funds funds p hpay
+      refine ⟨ms, [], by simp, d.1, (fun _ h => by cases h), ?_⟩
+      rw [hh, d.2]; simp only []; rw [sbk.prev]; omega
+  | updateGlobalIndex =>
+    simp only [hubExec] at hx; split at hx
+    · cases hx
+    · unfold updateGlobal at hx
+      exc_norm at hx
+      exc_split at hx
+      all_goals
+        refine plain _ rfl ?_ rfl
+        intro y hy
+        simp only [List.mem_append, List.mem_map, List.mem_cons, List.mem_nil_iff, or_false] at hy
+        rcases hy with ⟨d, _, rfl⟩ | rfl | rfl <;> simp [isOut]
+  | withdrawUnbonded =>
+    simp only [hubExec] at hx; split at hx
+    · cases hx
+    · obtain ⟨_, h1, hp, _, hle, hh, hms⟩ := withdraw_spec _ _ _ _ _ hx
+      refine ⟨ms, [], by simp, ?_, (fun _ h => by cases h), ?_⟩
+      · subst hms; intro y hy; simp at hy; subst hy; simp [isLeaf, he]
+      · subst hms; subst hh
+        simp only [hubOutAll, List.map_cons, List.map_nil, List.sum_cons, List.sum_nil, hubOut, he, and_self, if_true]
+        omega
+  | checkSlashing =>
+    simp only [hubExec] at hx; split at hx
+    · cases hx
+    · exc_norm at hx
+      split at hx
+      · cases hx
+      · rename_i st hst
+        injection hx with hx; injection hx with e1 e2; subst e1; subst e2
+        exact plain [] (actualState_spec h _ e hst).1.prev (fun _ h => by cases h) rfl
+  | updateConfig a b c d f g u =>
+    simp only [hubExec] at hx; split at hx
+    · cases hx
+    · unfold updateConfig at hx
+      exc_norm at hx
+      exc_split at hx
+      refine plain _ rfl ?_ rfl
+      intro y hy
+      cases a with
+      | none => cases hy
+      | some dd => simp at hy; subst hy; rfl
+  | setOwner a =>
+    simp only [hubExec] at hx; exc_norm at hx; exc_split at hx
+    exact plain [] rfl (fun _ h => by cases h) rfl
+  | acceptOwnership =>
+    simp only [hubExec] at hx; exc_norm at hx; exc_split at hx
+    exact plain [] rfl (fun _ h => by cases h) rfl
+  | swapHook =>
+    simp only [hubExec] at hx; exc_norm at hx; exc_split at hx
+    exact plain _ rfl (by intro y hy; simp at hy; subst hy; simp [isOut]) rfl
+  | claimAirdrop =>
+    simp only [hubExec] at hx; exc_norm at hx; exc_split at hx
+    exact plain _ rfl (by intro y hy; simp at hy; rcases hy with rfl | rfl <;> simp [isOut]) rfl
+  | redelegateProxy src plan =>
+    simp only [hubExec] at hx; exc_norm at hx; exc_split at hx
+    refine plain _ rfl ?_ rfl
+    intro y hy
+    simp only [List.mem_map] at hy
+    obtain ⟨pp, _, rfl⟩ := hy
+    rfl
+
+theorem isLeaf_out (m : Msg) (h : isLeaf m = true) : isOut m = true := by
+  cases m <;> simp_all [isLeaf, isOut]
+
+/-- a message that is not an outflow of the hub does not lower the hub's staking-denom balance -/
+theorem handle_bank_noOut (s s' : Sys) (m : Msg) (ms : List Msg) (hx : s.handle m = .ok (s', ms))
+    (hno : isOut m = false) : s'.chain.bank hubA 0 ≥ s.chain.bank hubA 0 := by
+  by_cases hs : m.sentFrom = hubA
+  · cases m with
+    | bankSend src dst d amt => simp [isOut, Msg.sentFrom] at hno hs; exact absurd hs hno
+    | delegate who v amt => simp [isOut, Msg.sentFrom] at hno hs; exact absurd hs hno
+    | undelegate who v amt => simp only [Sys.handle] at hx; exc_norm at hx; exc_split at hx; exact Nat.le_refl _
+    | redelegate who src dst amt => simp only [Sys.handle] at hx; exc_norm at hx; exc_split at hx; exact Nat.le_refl _
+    | setWithdrawAddr who a => simp only [Sys.handle] at hx; exc_norm at hx; exc_split at hx; exact Nat.le_refl _
+    | withdrawReward who v =>
+      simp only [Sys.handle] at hx; exc_norm at hx; exc_split at hx
+      simp only [List.foldl, Sys.setBank]
+      by_cases h : hubA = s.chain.withdrawAddr
+      · rw [← h]; simp [upd]
+      · simp [upd, h]
+    | wasm a t c f =>
+      have ha : a = hubA := hs
+      have hf : f = [] := by
+        simp only [isOut, ha, beq_self_eq_true, Bool.true_and, Bool.not_eq_false'] at hno
+        simpa using hno
+      subst hf
+      obtain ⟨s1, h1, hc⟩ := handle_wasm_chain_eq s s' _ _ _ _ ms hx
+      simp only [Sys.moveFunds] at h1
+      injection h1 with h1; subst h1
+      rw [hc]; exact Nat.le_refl _
+  · exact handle_bank_ge s s' m ms hx hubA 0 hs
+
+/-- everything carried from message to message -/
+structure HubFund (s : Sys) (q : List Msg) : Prop where
+  split : ∃ A rest, q = A ++ rest ∧ (∀ x ∈ A, isLeaf x = true) ∧ (∀ x ∈ rest, isOut x = false) ∧
+    s.hub.prevHubBalance + hubOutAll A ≤ s.chain.bank hubA 0
+
+theorem HubFund.drained {s : Sys} (h : HubFund s []) : s.hub.prevHubBalance ≤ s.chain.bank hubA 0 := by
+  obtain ⟨A, rest, hq, _, _, hle⟩ := h.split
+  have : A = [] := by
+    cases A with
+    | nil => rfl
+    | cons p t => simp only [List.cons_append] at hq; cases hq
+  subst this
+  simpa [hubOutAll] using hle
+
+theorem HubFund.step (s s' : Sys) (m : Msg) (rest0 subs : List Msg)
+    (inv : HubFund s (m :: rest0)) (hx : s.handle m = .ok (s', subs)) : HubFund s' (subs ++ rest0) := by
+  obtain ⟨A, rest, hq, hA, hrest, hle⟩ := inv.split
+  have sent := handle_sentBy s s' m subs hx
+  cases A with
+  | cons p A' =>
+    -- the head is one of the hub's pending payouts / delegations
+    simp only [List.cons_append] at hq
+    injection hq with h1 h2
+    subst h1
+    have hm := hA m (List.mem_cons_self ..)
+    have hA' : ∀ x ∈ A', isLeaf x = true := fun x hx' => hA x (List.mem_cons_of_mem _ hx')
+    simp only [hubOutAll, List.map_cons, List.sum_cons] at hle
+    have hsub : subs = [] := by
+      cases m with
+      | wasm a b c d => simp [isLeaf] at hm
+      | _ => exact sent.2 (fun _ _ _ _ h => by cases h)
+    have hhub : s'.hub = s.hub := by
+      cases handle_touch s s' m subs hx with
+      | none h _ _ _ => exact h.hub
+      | hub _ _ _ _ heq _ _ _ _ _ _ _ _ => subst heq; simp [isLeaf] at hm
+      | bsei _ _ _ _ heq _ _ h _ _ _ _ => exact h
+      | stsei _ _ _ _ heq _ h _ _ _ _ => exact h
+      | reward _ _ _ _ heq _ _ _ _ h _ _ _ _ => exact h
+      | disp _ _ _ _ heq _ h _ _ _ _ => exact h
+      | reg _ _ _ _ heq _ _ _ _ h _ _ _ _ => exact h
+    subst hsub
+    refine ⟨A', rest, by simp [h2], hA', hrest, ?_⟩
+    rw [hhub]
+    cases m with
+    | bankSend src dst d amt =>
+      have hs : src = hubA := by simpa [isLeaf] using hm
+      subst hs
+      by_cases hd : d = 0
+      · subst hd
+        have := (handle_bank_out s s' _ [] hx hubA 0).1 dst amt rfl
+        simp only [hubOut, and_self, if_true] at hle
+        simp only [hubOutAll] at hle ⊢; omega
+      · have := (handle_bank_out s s' _ [] hx hubA 0).2.1 dst d amt rfl hd
+        simp only [hubOut, hd, and_false, if_false] at hle
+        simp only [hubOutAll] at hle ⊢; omega
+    | delegate who v amt =>
+      have hs : who = hubA := by simpa [isLeaf] using hm
+      subst hs
+      simp only [Sys.handle] at hx
+      exc_norm at hx
+      exc_split at hx
+      rename_i hge
+      simp only [hubOut, if_true] at hle
+      simp only [Sys.setBank, upd_same]
+      simp only [hubOutAll] at hle ⊢
+      omega
+    | _ => simp [isLeaf] at hm
+  | nil =>
+    simp only [List.nil_append] at hq
+    have hmo : isOut m = false := hrest m (by rw [← hq]; exact List.mem_cons_self ..)
+    have hr0 : ∀ x ∈ rest0, isOut x = false := fun x hx' => hrest x (by rw [← hq]; exact List.mem_cons_of_mem _ hx')
+    have hB : s.hub.prevHubBalance ≤ s.chain.bank hubA 0 := by simpa [hubOutAll] using hle
+    have bank' := handle_bank_noOut s s' m subs hx hmo
+    have other : s'.hub = s.hub → (∀ x ∈ subs, isOut x = false) → HubFund s' (subs ++ rest0) := by
+      intro hh hsub
+      refine ⟨[], subs ++ rest0, rfl, (fun _ h => by cases h), ?_, ?_⟩
+      · intro x hx'
+        rcases List.mem_append.mp hx' with h | h
+        · exact hsub x h
+        · exact hr0 x h
+      · rw [hh]; simp only [hubOutAll, List.map_nil, List.sum_nil, Nat.add_zero]; omega
+    cases handle_touch s s' m subs hx with
+    | none h _ hs _ => exact other h.hub (sentBy_noOut swapA (by decide) subs hs)
+    | bsei s1 sender funds tm heq _ _ h _ _ _ _ =>
+      exact other h (sentBy_noOut bseiA (by decide) subs (sent.1 _ _ _ _ heq))
+    | stsei blk sender funds tm heq _ h _ _ _ _ =>
+      exact other h (sentBy_noOut stseiA (by decide) subs (sent.1 _ _ _ _ heq))
+    | reward s1 sender funds rm heq _ _ _ _ h _ _ _ _ =>
+      exact other h (sentBy_noOut rewardA (by decide) subs (sent.1 _ _ _ _ heq))
+    | disp env sender funds dm heq _ h _ _ _ _ =>
+      exact other h (sentBy_noOut dispA (by decide) subs (sent.1 _ _ _ _ heq))
+    | reg s1 sender funds rm heq _ _ _ _ h _ _ _ _ =>
+      exact other h (sentBy_noOut regA (by decide) subs (sent.1 _ _ _ _ heq))
+    | hub s1 sender funds hm' heq h1 hc hx' _ _ _ _ _ =>
+      -- what the handler sees: the balance after the attached funds arrived
+      obtain ⟨s1', hmv, hch⟩ := handle_wasm_chain_eq s s' sender hubA (.hub hm') funds subs (heq ▸ hx)
+      have hB1 : s1'.chain.bank hubA 0 ≥ s.chain.bank hubA 0 + fundsOf 0 funds := by
+        by_cases hsd : sender = hubA
+        · -- a self-call: it carries no funds
+          have hf : funds = [] := by
+            subst heq
+            simp only [isOut, hsd, beq_self_eq_true, Bool.true_and, Bool.not_eq_false'] at hmo
+            simpa using hmo
+          subst hf
+          simp only [Sys.moveFunds] at hmv
+          injection hmv with hmv; subst hmv
+          simp [fundsOf]
+        · exact moveFunds_bank_in sender hubA hsd funds s s1' hmv 0
+      have same1 : s1.chain.bank hubA 0 = s1'.chain.bank hubA 0 := by
+        have : s'.chain = s1.chain := hc.2.2
+        rw [← this, hch]
+      obtain ⟨pre, rest', hms, hp, hr, hle'⟩ := hub_fund_step _ _ s1.hubEnv _ _ _ _ (s.chain.bank hubA 0) rfl
+        (by show s1.chain.bank hubA 0 ≥ _; rw [same1]; exact hB1) hB hx'
+      refine ⟨pre, rest' ++ rest0, by rw [hms, List.append_assoc], hp, ?_, ?_⟩
+      · intro x hx''
+        rcases List.mem_append.mp hx'' with h | h
+        · exact hr x h
+        · exact hr0 x h
+      · have : s'.chain.bank hubA 0 = s1.chain.bank hubA 0 := by rw [hc.2.2]
+        rw [this]; exact hle'
+
+/-- **Every reachable state: the coins reserved for unbonders are in the hub's account.** From any
+    state with `prev_hub_balance` at most the hub's liquid staking-denom balance, after any history
+    of any length whose top-level messages are not sent in the hub's name — bonds, re-bonded
+    rewards, conversions, index updates, withdrawals, validator removal, failed transactions,
+    slashing, time — it still is: bonding delegates exactly what was paid in, nothing else spends
+    the hub's coins, so `WithdrawUnbonded` never finds less than it set aside. -/
+theorem C02_reserved (s : Sys) (l : List Step) (hB : s.hub.prevHubBalance ≤ s.chain.bank hubA 0)
+    (hq : ∀ m, Step.tx m ∈ l → m.sentFrom ≠ hubA) :
+    (s.steps l).hub.prevHubBalance ≤ (s.steps l).chain.bank hubA 0 := by
+  induction l generalizing s with
+  | nil => exact hB
+  | cons st rest ih =>
+    show ((s.step st).steps rest).hub.prevHubBalance ≤ _
+    apply ih _ _ (fun m hm => hq m (List.mem_cons_of_mem _ hm))
+    cases st with
+    | env e =>
+      show (s.env e).hub.prevHubBalance ≤ (s.env e).chain.bank hubA 0
+      cases e with
+      | advance dt => simp only [Sys.env, Sys.setBank, upd_same]; omega
+      | slash v n d => simp only [Sys.env]; split <;> exact hB
+      | slashUnbonding v n d => simp only [Sys.env]; split <;> exact hB
+      | donate a d amt =>
+        simp only [Sys.env, Sys.setBank, upd]
+        by_cases h1 : hubA = a <;> by_cases h2 : (0 : Denom) = d <;> simp_all <;> omega
+      | seedLegacy u b a => exact hB
+      | _ => exact hB
+    | tx m =>
+      have hm := hq m (List.mem_cons_self ..)
+      show (s.exec m).1.hub.prevHubBalance ≤ (s.exec m).1.chain.bank hubA 0
+      unfold Sys.exec
+      split
+      · rename_i s' hrun
+        have hno : isOut m = false := by cases m <;> simp_all [isOut, Msg.sentFrom]
+        have inv0 : HubFund s [m] := ⟨[], [m], rfl, (fun _ h => by cases h),
+          (by intro x hx; simp at hx; subst hx; exact hno), by simpa [hubOutAll] using hB⟩
+        exact (run_inv2 HubFund (fun a b r a' sb => HubFund.step a a' b r sb) 400 s [m] s' inv0 hrun).drained
+      · exact hB
+
+example : genesisSys.hub.prevHubBalance ≤ genesisSys.chain.bank hubA 0 := by decide
 
 end Krp
